@@ -10,7 +10,12 @@ import "fmt"
 // vhSlots builds a snapshot with n scalar argument slots; slot i lives in
 // goroutine g[i] (0..2), frame 0; the last slot sits inside a nested aggregate.
 // Values are symbolic 64-bit words; IsPtr is set as the parser sets it.
-func vhSlots(g []int, tagp string) (*Snapshot, []*Arg) {
+func vhSlots(g []int, tagp string) (*Snapshot, []*Arg) { return vhSlotsN(g, tagp, false) }
+
+// vhSlotsN: with narrow, values are drawn from 256 pointers (0x100000+b) and 256
+// small non-pointers instead of all 64-bit words (the code only compares and
+// orders the values).
+func vhSlotsN(g []int, tagp string, narrow bool) (*Snapshot, []*Arg) {
 	s := &Snapshot{}
 	for i := 0; i < 3; i++ {
 		gr := &Goroutine{ID: i + 1, First: i == 0}
@@ -21,6 +26,10 @@ func vhSlots(g []int, tagp string) (*Snapshot, []*Arg) {
 	var locs []loc
 	for i, gi := range g {
 		v := vU64(fmt.Sprintf("%sv%d", tagp, i))
+		if narrow {
+			b := uint64(vByte(fmt.Sprintf("%sb%d", tagp, i)))
+			v = uint64(vIte(vBool(fmt.Sprintf("%sp%d", tagp, i)), int(0x100000+b), int(b)))
+		}
 		a := Arg{Value: v, IsPtr: vAnd(v > pointerFloor, v < pointerCeiling)}
 		args := &s.Goroutines[gi].Stack.Calls[0].Args
 		if i == len(g)-1 {
@@ -50,8 +59,10 @@ func vhNum(name string) int {
 	return n
 }
 
-func vhC15(g []int) {
-	s, slots := vhSlots(g, "")
+func vhC15(g []int) { vhC15N(g, false) }
+
+func vhC15N(g []int, narrow bool) {
+	s, slots := vhSlotsN(g, "", narrow)
 	n := len(slots)
 	before := make([]Arg, n)
 	for i, a := range slots {
@@ -131,7 +142,7 @@ func vhC15(g []int) {
 //verif:replay-iters 100
 func VH_C15_Names3(g0, g1, g2 int) { vhC15([]int{g0, g1, g2}) }
 
-// VH_C15_Names4: four slots (thorough).
+// VH_C15_Names4: four slots (thorough), values from a 512-element domain.
 //
 //verif:prop C15
 //verif:tier thorough
@@ -140,7 +151,7 @@ func VH_C15_Names3(g0, g1, g2 int) { vhC15([]int{g0, g1, g2}) }
 //verif:param g2 0,2
 //verif:param g3 0,2
 //verif:replay-iters 100
-func VH_C15_Names4(g0, g1, g2, g3 int) { vhC15([]int{g0, g1, g2, g3}) }
+func VH_C15_Names4(g0, g1, g2, g3 int) { vhC15N([]int{g0, g1, g2, g3}, true) }
 
 // VH_C15_Off: with naming off the scanner never calls nameArguments — covered
 // by the scan glue harness (C15 option gate); here: naming twice is idempotent
